@@ -116,9 +116,51 @@ fn tryfrom_record(text: String) -> String {
     }
 }
 
+/// `booked`: the literal as the amount of a posting in a commodity DECLARED with two places (`format 1,000.00 USD`), through
+/// the real `report::process`: the value book-keeping records for that posting (`value USD NEG MANT SCALE`).
+fn booked_record(lit: &str) -> String {
+    let files: proc::Files = vec![(
+        "/r/main.ledger".to_string(),
+        format!("commodity USD\n    format 1,000.00 USD\n\n2024/01/01 x\n    A    {} USD\n    B\n", lit),
+    )];
+    let r = sx::catch(move || {
+        let arena = Bump::new();
+        let mut ctx = ReportContext::new(&arena);
+        let opts = report::ProcessOptions { price_db_path: None };
+        let res = report::process(&mut ctx, proc::fake_loader(&files, "/r/main.ledger"), &opts);
+        let rec = match res {
+            Err(report::ReportError::Load(_)) => "parse-err".to_string(),
+            Err(e) => format!("other-err {}", enc(&proc::render_chain(&e))),
+            Ok(ledger) => {
+                let txns: Vec<&report::Transaction> = ledger.transactions().collect();
+                if txns.len() != 1 || txns[0].postings.len() != 2 {
+                    return "shape other".to_string();
+                }
+                let vs = txns[0].postings[0].amount.clone().into_values();
+                if vs.is_empty() {
+                    return "value USD 0 0 0".to_string();
+                }
+                if vs.len() != 1 {
+                    return "shape multi".to_string();
+                }
+                let (c, v) = vs.into_iter().next().unwrap();
+                format!("value {} {}", enc(c.as_str()), tree::decimal(&v))
+            }
+        };
+        rec
+    });
+    match r {
+        Ok(s) => s,
+        Err(m) => format!("panic {}", enc(&m)),
+    }
+}
+
 fn pos_record(pos: &str, lit: &str) -> String {
     if pos == "pricedb" {
         return pricedb_record(lit);
+    }
+    if pos == "booked" {
+        return booked_record(lit);
     }
     if pos == "tryfrom" {
         return tryfrom_record(format!("{} USD", lit));
